@@ -24,6 +24,10 @@ type Transport struct {
 	wsconn      Conn
 	messageType MessageType
 
+	// writeMu makes a message write exclusive whatever the back-end does: gorilla's NextWriter does not wait for
+	// the writer that is still open, it closes it
+	writeMu sync.Mutex
+
 	compressConfig   compress.Config
 	writeWindowBuf   *bytes.Buffer
 	writeWindowBufMu sync.Mutex
@@ -92,6 +96,8 @@ func (t *Transport) Read() ([]byte, error) {
 
 // Writeは、１メッセージ分のデータを書き込みます。
 func (t *Transport) Write(bs []byte) error {
+	t.writeMu.Lock()
+	defer t.writeMu.Unlock()
 	wr, err := t.wsconn.Writer(t.ctx, MessageBinary)
 	if err != nil {
 		return fmt.Errorf("get writer: %w", err)
